@@ -195,7 +195,7 @@ type c10Deferred struct{ class, detail string }
 func (d *c10Deferred) set(c *core.Ctx, class, format string, a ...any) {
 	c.Probe("finding_" + class)
 	if d.class == "" {
-		d.class, d.detail = class, fmt.Sprintf(format, a...)
+		d.class, d.detail = class, strings.ReplaceAll(fmt.Sprintf(format, a...), c.Dir, "$DIR")
 	}
 }
 
@@ -238,7 +238,7 @@ func c10Run(c *core.Ctx, raw json.RawMessage) {
 
 	srcStore, err := xfer.OpenCopy(src.SnapDir, filepath.Join(c.Dir, "A"))
 	if err != nil {
-		c.Violate("source-open-failed", "snapshot.NewStore on the pristine source failed: %v", err)
+		violate(c, "source-open-failed", "snapshot.NewStore on the pristine source failed: %v", err)
 		return
 	}
 	defer srcStore.Close()
@@ -289,7 +289,7 @@ func c10Run(c *core.Ctx, raw json.RawMessage) {
 		}
 		_, st2, err := xfer.ReadStream(d, o.NewID)
 		if err != nil || !bytes.Equal(st2, src.Snaps[i].Stream) {
-			c.Violate("installed-stream-differs", "snapshot %s installed un-faulted re-streams differently from the source (err=%v, %d vs %d bytes)", src.Snaps[i].ID, err, len(st2), len(src.Snaps[i].Stream))
+			violate(c, "installed-stream-differs", "snapshot %s installed un-faulted re-streams differently from the source (err=%v, %d vs %d bytes)", src.Snaps[i].ID, err, len(st2), len(src.Snaps[i].Stream))
 			d.Close()
 			return
 		}
@@ -449,7 +449,7 @@ func c10Run(c *core.Ctx, raw json.RawMessage) {
 		dest.Close()
 	}
 	if !c.Failed() && c10def.class != "" {
-		c.Violate(c10def.class, "%s", c10def.detail)
+		violate(c, c10def.class, "%s", c10def.detail)
 	}
 	c.Res.Trivial = c.Res.Cases == 0
 	c.Sig(fmt.Sprintf("%d snaps %v", len(src.Snaps), len(nShapes)))
@@ -493,29 +493,29 @@ func errClass(err error) string {
 // c10CheckUnfaulted demands a perfect result of an un-faulted transfer.
 func c10CheckUnfaulted(c *core.Ctx, tag string, info *xfer.SnapInfo, o *xfer.Outcome, restoreTo string) bool {
 	if o.Stuck {
-		c.Violate("transfer-hung", "%s: un-faulted transfer made no progress for 300 simulated seconds", tag)
+		violate(c, "transfer-hung", "%s: un-faulted transfer made no progress for 300 simulated seconds", tag)
 		return false
 	}
 	if !o.Installed {
-		c.Violate("unfaulted-install-failed", "%s: un-faulted transfer of %s was not installed: %v (sender: %v)", tag, info.ID, errClass(o.InstallErr()), o.SendErr)
+		violate(c, "unfaulted-install-failed", "%s: un-faulted transfer of %s was not installed: %v (sender: %v)", tag, info.ID, errClass(o.InstallErr()), o.SendErr)
 		return false
 	}
 	if !bytes.Equal(o.Payload, info.Stream) {
 		_, d := xfer.Compare(info.Stream, o.Payload)
-		c.Violate("unfaulted-payload-differs", "%s: transport delivered different bytes to the sink without any fault: %s", tag, d)
+		violate(c, "unfaulted-payload-differs", "%s: transport delivered different bytes to the sink without any fault: %s", tag, d)
 		return false
 	}
 	if !o.Restored {
-		c.Violate("unfaulted-restore-failed", "%s: snapshot %s installed un-faulted cannot be restored: open=%v restore=%v", tag, info.ID, o.RestoreOpen, o.RestoreErr)
+		violate(c, "unfaulted-restore-failed", "%s: snapshot %s installed un-faulted cannot be restored: open=%v restore=%v", tag, info.ID, o.RestoreOpen, o.RestoreErr)
 		return false
 	}
 	got, _ := os.ReadFile(restoreTo)
 	if !bytes.Equal(got, info.Ref) {
-		c.Violate("unfaulted-content-differs", "%s: snapshot %s installed un-faulted restores to a different database: %s", tag, info.ID, c10DumpDiff(c, info, restoreTo))
+		violate(c, "unfaulted-content-differs", "%s: snapshot %s installed un-faulted restores to a different database: %s", tag, info.ID, c10DumpDiff(c, info, restoreTo))
 		return false
 	}
 	if o.SendErr != nil {
-		c.Violate("unfaulted-sender-error", "%s: snapshot installed but the sender got an error: %v", tag, o.SendErr)
+		violate(c, "unfaulted-sender-error", "%s: snapshot installed but the sender got an error: %v", tag, o.SendErr)
 		return false
 	}
 	return true
@@ -548,7 +548,7 @@ func c10Judge(c *core.Ctx, eng *xfer.Engine, tag string, op *c10Op, spec *xfer.S
 func c10JudgeInstall(c *core.Ctx, eng *xfer.Engine, tag string, op *c10Op, spec *xfer.Spec, info *xfer.SnapInfo, S []byte,
 	dest *snapshot.Store, destDir string, before []string, o *xfer.Outcome, producerFault bool, baseRef []byte, restoreTo string) {
 	if o.Stuck {
-		c.Violate("transfer-hung", "%s: transfer made no progress for 300 simulated seconds", tag)
+		violate(c, "transfer-hung", "%s: transfer made no progress for 300 simulated seconds", tag)
 		return
 	}
 	if op.Kind == "none" {
@@ -556,10 +556,10 @@ func c10JudgeInstall(c *core.Ctx, eng *xfer.Engine, tag string, op *c10Op, spec 
 			c.Probe("unfaulted_ok")
 			after, _, _ := xfer.IDs(dest)
 			if len(after) != len(before)+1 {
-				c.Violate("unfaulted-not-listed", "%s: installed snapshot not listed: before %v after %v", tag, before, after)
+				violate(c, "unfaulted-not-listed", "%s: installed snapshot not listed: before %v after %v", tag, before, after)
 			}
 			if l, _ := dest.List(); len(l) != 1 || l[0].ID != o.NewID {
-				c.Violate("unfaulted-not-listed", "%s: List() does not return the installed snapshot %s", tag, o.NewID)
+				violate(c, "unfaulted-not-listed", "%s: List() does not return the installed snapshot %s", tag, o.NewID)
 			}
 		}
 		return
@@ -579,7 +579,7 @@ func c10JudgeInstall(c *core.Ctx, eng *xfer.Engine, tag string, op *c10Op, spec 
 		c.Probe("faulted_but_installed")
 		if !o.Restored {
 			if cls == "same" {
-				c.Violate("unfaulted-restore-failed", "%s: payload reached the sink unaltered, was installed, but cannot be restored: open=%v restore=%v", tag, o.RestoreOpen, o.RestoreErr)
+				violate(c, "unfaulted-restore-failed", "%s: payload reached the sink unaltered, was installed, but cannot be restored: open=%v restore=%v", tag, o.RestoreOpen, o.RestoreErr)
 			} else {
 				c.Probe("rejected_at_restore")
 			}
@@ -587,11 +587,11 @@ func c10JudgeInstall(c *core.Ctx, eng *xfer.Engine, tag string, op *c10Op, spec 
 		}
 		got, _ := os.ReadFile(restoreTo)
 		if !bytes.Equal(got, info.Ref) {
-			c.Violate("altered-data-installed", "%s: install and restore succeeded but the database differs from the source: %s (payload: %s %s)", tag, c10DumpDiff(c, info, restoreTo), cls, det)
+			violate(c, "altered-data-installed", "%s: install and restore succeeded but the database differs from the source: %s (payload: %s %s)", tag, c10DumpDiff(c, info, restoreTo), cls, det)
 			return
 		}
 		if _, st2, err := xfer.ReadStream(dest, o.NewID); err != nil || !bytes.Equal(st2, S) {
-			c.Violate("installed-stream-differs", "%s: installed snapshot re-streams differently from the source (err=%v)", tag, err)
+			violate(c, "installed-stream-differs", "%s: installed snapshot re-streams differently from the source (err=%v)", tag, err)
 			return
 		}
 		switch cls {
@@ -600,7 +600,7 @@ func c10JudgeInstall(c *core.Ctx, eng *xfer.Engine, tag string, op *c10Op, spec 
 		case "header-only":
 			c10def.set(c, "corrupt-stream-accepted", "%s: corrupted stream was installed and restored (content identical to the source): payload-bytes-identical header-diff: %s", tag, det)
 		default:
-			c.Violate("altered-stream-accepted", "%s: altered stream was installed and restored: %s", tag, det)
+			violate(c, "altered-stream-accepted", "%s: altered stream was installed and restored: %s", tag, det)
 		}
 		return
 	}
@@ -618,23 +618,23 @@ func c10JudgeInstall(c *core.Ctx, eng *xfer.Engine, tag string, op *c10Op, spec 
 		c.Probe("rejected_other")
 	}
 	if !fired {
-		c.Violate("unfaulted-install-failed", "%s: fault did not fire, yet the install failed: %v", tag, errClass(o.InstallErr()))
+		violate(c, "unfaulted-install-failed", "%s: fault did not fire, yet the install failed: %v", tag, errClass(o.InstallErr()))
 		return
 	}
 	after, _, err := xfer.IDs(dest)
 	if err != nil || strings.Join(after, ",") != strings.Join(before, ",") {
-		c.Violate("failed-install-left-snapshot", "%s: rejected install changed the destination's snapshot list: before %v after %v err=%v", tag, before, after, err)
+		violate(c, "failed-install-left-snapshot", "%s: rejected install changed the destination's snapshot list: before %v after %v err=%v", tag, before, after, err)
 		return
 	}
 	if op.Base {
 		l, err := dest.List()
 		if err != nil || len(l) != 1 || l[0].ID != before[len(before)-1] {
-			c.Violate("failed-install-damaged-existing", "%s: destination no longer lists its previous snapshot after a rejected install: %v %v", tag, l, err)
+			violate(c, "failed-install-damaged-existing", "%s: destination no longer lists its previous snapshot after a rejected install: %v %v", tag, l, err)
 			return
 		}
 		_, rc, err := dest.Open(l[0].ID)
 		if err != nil {
-			c.Violate("failed-install-damaged-existing", "%s: previous snapshot cannot be opened after a rejected install: %v", tag, err)
+			violate(c, "failed-install-damaged-existing", "%s: previous snapshot cannot be opened after a rejected install: %v", tag, err)
 			return
 		}
 		os.Remove(restoreTo)
@@ -642,7 +642,7 @@ func c10JudgeInstall(c *core.Ctx, eng *xfer.Engine, tag string, op *c10Op, spec 
 		rc.Close()
 		got, _ := os.ReadFile(restoreTo)
 		if err != nil || !bytes.Equal(got, baseRef) {
-			c.Violate("failed-install-damaged-existing", "%s: previous snapshot restores differently after a rejected install: err=%v", tag, err)
+			violate(c, "failed-install-damaged-existing", "%s: previous snapshot restores differently after a rejected install: err=%v", tag, err)
 			return
 		}
 		c.Probe("existing_snapshot_intact_after_reject")
@@ -679,7 +679,7 @@ func c10Direct(c *core.Ctx, tag string, info *xfer.SnapInfo, S, P []byte, kind s
 	}
 	if err != nil {
 		if cls == "same" {
-			c.Violate("unfaulted-restore-failed", "%s: direct restore of an unaltered payload failed: %v", tag, err)
+			violate(c, "unfaulted-restore-failed", "%s: direct restore of an unaltered payload failed: %v", tag, err)
 		}
 		c.Probe("direct_restore_rejected")
 		return
@@ -687,7 +687,7 @@ func c10Direct(c *core.Ctx, tag string, info *xfer.SnapInfo, S, P []byte, kind s
 	got, _ := os.ReadFile(tmp)
 	if !bytes.Equal(got, info.Ref) {
 		info2 := *info
-		c.Violate("altered-data-restored", "%s: snapshot.Restore accepted an altered stream and produced a different database: %s (%s %s)", tag, c10DumpDiff(c, &info2, tmp), cls, det)
+		violate(c, "altered-data-restored", "%s: snapshot.Restore accepted an altered stream and produced a different database: %s (%s %s)", tag, c10DumpDiff(c, &info2, tmp), cls, det)
 		return
 	}
 	switch {
@@ -695,7 +695,7 @@ func c10Direct(c *core.Ctx, tag string, info *xfer.SnapInfo, S, P []byte, kind s
 	case cls == "header-only":
 		c10def.set(c, "corrupt-stream-accepted", "%s: direct-restore: corrupted stream was restored (content identical to the source): payload-bytes-identical header-diff: %s", tag, det)
 	default:
-		c.Violate("altered-stream-accepted", "%s: direct-restore: altered stream was restored: %s", tag, det)
+		violate(c, "altered-stream-accepted", "%s: direct-restore: altered stream was restored: %s", tag, det)
 	}
 }
 
